@@ -32,6 +32,10 @@ def tick_up(d):
 
 
 class Call(object):
+  @property
+  def label(self):
+    return self.arg if len(self.arg) < 60 else self.arg[:16] + '...(%d chars)' % len(self.arg)
+
   def __init__(self, idx, arg, timeout):
     self.idx = idx
     self.arg = arg
@@ -134,7 +138,7 @@ class StackWorld(object):
         if not same and not getattr(c, 'flagged', False):
           c.flagged = True
           self.v('C01.changed-after-completion', 'call %d(%r) completed with %r at +%.4f and changed to %r at +%.4f'
-                 % (c.idx, c.arg, self._show(f), c.first[0] - vloop.EPOCH, self._show(cur), now - vloop.EPOCH))
+                 % (c.idx, c.label, self._show(f), c.first[0] - vloop.EPOCH, self._show(cur), now - vloop.EPOCH))
 
   @staticmethod
   def _show(cur):
@@ -165,7 +169,7 @@ class StackWorld(object):
         if now > due + EPS and not getattr(c, 'late_flagged', False):
           c.late_flagged = True
           self.v('C01.late', 'call %d(%r) issued at +%.4f with timeout %.4f is still pending at +%.4f (due by +%.4f)'
-                 % (c.idx, c.arg, c.t_issue - vloop.EPOCH, c.timeout, now - vloop.EPOCH, due - vloop.EPOCH),
+                 % (c.idx, c.label, c.t_issue - vloop.EPOCH, c.timeout, now - vloop.EPOCH, due - vloop.EPOCH),
                  issued_before_open=bool(c.issued_before_open), stack=self.p['stack'])
 
   # ---- alternatives ----------------------------------------------------------------------------------------
@@ -247,7 +251,10 @@ class StackWorld(object):
   def _do_next_op(self):
     op = self.ops.pop(0)
     if op[0] == 'call':
-      c = Call(len(self.calls), '<<%s>>' % op[1], op[2] if len(op) > 2 else self.p.get('timeout', 0.5025))
+      arg = '<<%s>>' % op[1]
+      if len(op) > 3 and op[3] == 'big':
+        arg += 'x' * 70000            # a request larger than 64 KB
+      c = Call(len(self.calls), arg, op[2] if len(op) > 2 else self.p.get('timeout', 0.5025))
       c.t_issue = self.lp.now()
       # the execution must run until this call's deadline has passed
       self.horizon = max(self.horizon, tick_up(c.t_issue + c.timeout) + 0.1)
@@ -284,28 +291,31 @@ class StackWorld(object):
       if c.first is None:
         if not self.closed:
           self.v('C01.never-completed', 'call %d(%r) issued at +%.4f (timeout %.4f) never completed by the horizon +%.4f'
-                 % (c.idx, c.arg, c.t_issue - vloop.EPOCH, c.timeout, now - vloop.EPOCH),
+                 % (c.idx, c.label, c.t_issue - vloop.EPOCH, c.timeout, now - vloop.EPOCH),
                  issued_before_open=bool(c.issued_before_open), stack=self.p['stack'])
         continue
       t_done, cur, _ = c.first
       if cur[0] == 'ok':
         if cur[1] != 'echo:' + c.arg:
-          self.v('C02.wrong-reply', 'call %d(%r) returned %r' % (c.idx, c.arg, cur[1]), stack=self.p['stack'])
+          self.v('C02.wrong-reply', 'call %d(%r) returned %r' % (c.idx, c.label, cur[1]), stack=self.p['stack'])
           self.v('C01.not-own-reply', 'call %d(%r) completed with %r, which is not the server\'s reply to that call'
-                 % (c.idx, c.arg, cur[1]), stack=self.p['stack'])
+                 % (c.idx, c.label, cur[1]), stack=self.p['stack'])
       else:
         exc = cur[1] if cur[0] == 'fail' else cur[2]
         if isinstance(exc, ScalesTimeout):
           if t_done < c.t_issue + c.timeout - EPS:
             self.v('C01.early-timeout', 'call %d(%r) issued at +%.4f with timeout %.4f got TimeoutError at +%.4f, %.4f s early'
-                   % (c.idx, c.arg, c.t_issue - vloop.EPOCH, c.timeout, t_done - vloop.EPOCH, c.t_issue + c.timeout - t_done),
+                   % (c.idx, c.label, c.t_issue - vloop.EPOCH, c.timeout, t_done - vloop.EPOCH, c.t_issue + c.timeout - t_done),
                    issued_before_open=bool(c.issued_before_open), stack=self.p['stack'])
           # C12: nothing of this call may be transmitted after the caller saw the timeout
           needle = c.arg.encode('utf-8')
           later = [w for w in self.net.write_log[c.writes_at_done:] if needle in w[2]]
+          if len(needle) > 60000:
+            # a large request may be handed to the socket in pieces: any later piece of its body counts (only one call is that large)
+            later = [w for w in self.net.write_log[c.writes_at_done:] if needle in w[2] or b'x' * 4096 in w[2]]
           if later:
             self.v('C12.sent-after-timeout', 'call %d(%r) got TimeoutError at +%.4f; its request was written to connection c%d at +%.4f afterwards'
-                   % (c.idx, c.arg, t_done - vloop.EPOCH, later[0][1], later[0][0] - vloop.EPOCH), stack=self.p['stack'])
+                   % (c.idx, c.label, t_done - vloop.EPOCH, later[0][1], later[0][0] - vloop.EPOCH), stack=self.p['stack'])
           if self.p['stack'] == 'mux':
             sent = [r for r in self.server_log[:c.server_seen_at_done] if r.get('arg') == c.arg]
             for r in sent:
@@ -316,10 +326,10 @@ class StackWorld(object):
                 if not later_discards:
                   self.v('C12.no-discard', 'call %d(%r) timed out at +%.4f after its request (tag %d) had been written to open '
                          'connection c%d; no Tdiscarded naming tag %d reached the server (discards seen: %r)'
-                         % (c.idx, c.arg, t_done - vloop.EPOCH, r['tag'], r['conn'], r['tag'], [d[1] for d in conn.peer.discards]))
+                         % (c.idx, c.label, t_done - vloop.EPOCH, r['tag'], r['conn'], r['tag'], [d[1] for d in conn.peer.discards]))
       if c.timeout and t_done > self.due_eff(tick_up(c.t_issue + c.timeout)) + EPS:
         self.v('C01.late', 'call %d(%r) issued at +%.4f with timeout %.4f completed at +%.4f (due by +%.4f)'
-               % (c.idx, c.arg, c.t_issue - vloop.EPOCH, c.timeout, t_done - vloop.EPOCH,
+               % (c.idx, c.label, c.t_issue - vloop.EPOCH, c.timeout, t_done - vloop.EPOCH,
                   tick_up(c.t_issue + c.timeout) - vloop.EPOCH), issued_before_open=bool(c.issued_before_open), stack=self.p['stack'])
     # C02: the server saw only what callers passed, each at most once per transmission
     args = [c.arg for c in self.calls]
@@ -339,16 +349,16 @@ class StackWorld(object):
     out = []
     for c in self.calls:
       if c.first is None:
-        out.append('%s:pending' % c.arg)
+        out.append('%s:pending' % c.label)
       else:
         cur = c.first[1]
         if cur[0] == 'ok':
-          out.append('%s:ok@%.3f' % (c.arg, c.first[0] - vloop.EPOCH))
+          out.append('%s:ok@%.3f' % (c.label, c.first[0] - vloop.EPOCH))
         else:
           exc = cur[1] if cur[0] == 'fail' else cur[2]
           inner = getattr(exc, 'inner_exception', None)
-          out.append('%s:%s/%s@%.3f' % (c.arg, type(exc).__name__, type(inner).__name__ if inner is not None else '', c.first[0] - vloop.EPOCH))
-    out.append('srv=%s' % ','.join(str(r.get('arg', r.get('discard', 'p'))) for r in self.server_log))
+          out.append('%s:%s/%s@%.3f' % (c.label, type(exc).__name__, type(inner).__name__ if inner is not None else '', c.first[0] - vloop.EPOCH))
+    out.append('srv=%s' % ','.join(str(r.get('arg', r.get('discard', 'p')))[:24] for r in self.server_log))
     return ' '.join(out)
 
 
